@@ -77,7 +77,7 @@ def make_arg(ex, st, name, tag, prefix='a_'):
         parts = tag[6:].split(',')
         return SV('slice', tuple(make_arg(ex, st, '%s_%s' % (name, p), t, prefix) for p, t in zip(('start', 'stop', 'step'), parts)))
     if tag.startswith('tuple:'):
-        parts = tag[6:].split(',')
+        parts = [p for p in tag[6:].split(',') if p]
         return SV('tuple', [make_arg(ex, st, '%s_%d' % (name, i), t, prefix) for i, t in enumerate(parts)])
     if tag.startswith('class:'):
         return SV('class', tag[6:])
